@@ -105,7 +105,7 @@ def flat(t):
 # generation
 # --------------------------------------------------------------------------------------------------
 
-SHAPES = [(), (1,), (2,), (3,), (2, 2), (1, 3), (2, 1, 2)]
+SHAPES = [(), (1,), (2,), (3,), (2, 2), (1, 3), (2, 1, 2), (3, 1), (1, 1)]
 
 
 def gen_struct(rng, depth=0):
@@ -501,6 +501,57 @@ def map_direct(case, obs):
     return fails
 
 
+def forest_direct(trees):
+    """Structure helpers on forests (tuples of equally structured pytrees): stack / unstack round-trip
+    leaf by leaf (shapes incl. length-1 axes, values), map_forest = per-tree application for vmap / smap /
+    lmap, mean = flat mean."""
+    import jax
+    import nifty.re as jft
+    fails = []
+
+    def same(a, b):
+        la, lb = leaves_of(tree_numpy_any(a)), leaves_of(tree_numpy_any(b))
+        return len(la) == len(lb) and all(x.shape == y.shape and np.array_equal(x, y) for x, y in zip(la, lb))
+
+    def fail(fn, what):
+        fails.append(({"fn": fn, "kind": "forest"}, what, None))
+    forest = tuple(trees)
+    shapes = sorted({tuple(np.shape(l)) for l in leaves_of(forest[0])})
+    st = jft.stack(forest)
+    if not all(np.shape(l) == (len(forest),) + np.shape(l0) for l, l0 in zip(leaves_of(tree_numpy_any(st)), leaves_of(forest[0]))):
+        fail("stack", "stack(forest) does not put the trees along a new leading axis (leaf shapes %s)" % (shapes,))
+    un = jft.unstack(st)
+    if len(un) != len(forest) or not all(same(u, t) for u, t in zip(un, forest)):
+        got = [tuple(np.shape(l)) for l in leaves_of(tree_numpy_any(un[0]))] if len(un) else None
+        fail("unstack", "unstack(stack(forest)) != forest: leaf shapes %s came back as %s" % ([tuple(np.shape(l)) for l in leaves_of(forest[0])], got))
+    f = lambda t: jax.tree_util.tree_map(lambda x: 2 * x + 1, t)
+    want = tuple(f(t) for t in forest)
+    for m in ("vmap", "smap", "lmap"):
+        try:
+            got = jft.map_forest(f, map=m)(forest)
+            ok = len(got) == len(want) and all(same(g, w) for g, w in zip(got, want))
+        except Exception as e:
+            ok, got = False, repr(e)[:120]
+        if not ok:
+            fail("map_forest(%s)" % m, "map_forest(f, map=%r)(forest) differs from applying f to every tree (leaf shapes %s)" % (m, shapes))
+    mt = jft.mean(forest)
+    wantm = sum(flat(t) for t in forest) / len(forest)
+    if not np.allclose(flat(tree_numpy_any(mt)), wantm, rtol=1e-13, atol=1e-13):
+        fail("mean", "mean(forest) differs from the mean of the flat arrays")
+    return fails
+
+
+def tree_numpy_any(t):
+    """NumPy copy of a pytree whose leaves may be jax arrays (keeps dict / tuple / list kinds)."""
+    if hasattr(t, "tree"):
+        t = t.tree
+    if isinstance(t, dict):
+        return {k: tree_numpy_any(v) for k, v in t.items()}
+    if isinstance(t, (tuple, list)):
+        return type(t)(tree_numpy_any(x) for x in t)
+    return np.asarray(t)
+
+
 def float_map_direct(rng):
     """NIFTy's own test functions (transcendental) on random normal inputs, incl. None axes."""
     import jax
@@ -550,6 +601,10 @@ class C33(C.Check):
         for i in range(nv):
             cplx = (i % 3 == 2)
             st = gen_struct(rng)
+            if i == 0:      # steered: leaves with length-1 axes next to 0-d and plain leaves
+                st = ("dict", {"a": ("leaf", (3, 1)), "b": ("tuple", [("leaf", (1, 4)), ("leaf", (1,)), ("leaf", ())]), "c": ("leaf", (2, 2))})
+            elif i == 1:
+                st = ("list", [("leaf", (1, 1)), ("dict", {"x": ("leaf", (2, 1, 2)), "y": ("leaf", (1, 3))})])
             if st[0] == "leaf" and i % 4:
                 st = ("tuple", [st, gen_struct(rng, 1)])
             a, b = fill(st, rng, cplx), fill(st, rng, cplx)
@@ -642,6 +697,8 @@ class C33(C.Check):
             n += 1
             try:
                 fs = vector_direct(a, b, s, cplx)
+                if not fs:
+                    fs = forest_direct((a, b, tree_map_np(lambda x: x + 1, a)))
             except Exception as e:
                 fs = [({"fn": "exception", "kind": "vector"}, "tree_math raised on a valid input: %r" % (e,), None)]
             for sig, what, _ in fs[:1]:
@@ -668,7 +725,8 @@ class C33(C.Check):
             return bool(map_direct(case, run_map_case(case, inp.get("seed", [0, 33, 0]))))
         if inp.get("kind") == "vector":
             s = complex(inp["s"][0], inp["s"][1]) if inp["complex"] else inp["s"][0]
-            return bool(vector_direct(struct_from_json(inp["a"]), struct_from_json(inp["b"]), s, inp["complex"]))
+            a, b = struct_from_json(inp["a"]), struct_from_json(inp["b"])
+            return bool(vector_direct(a, b, s, inp["complex"])) or bool(forest_direct((a, b, tree_map_np(lambda x: x + 1, a))))
         return bool(float_map_direct(np.random.default_rng(0)))
 
 
